@@ -28,11 +28,13 @@ prop("C01", NEC + "Clauses: positions handed to TokenChange queries are absolute
       {"rule": "TOKEN-ERRORS", "floor": 2}, {"rule": "TABLES", "filter": tag("T2"), "floor": 17}])
 
 prop("C02", NEC + "Clauses: token-range to text-range conversions unwrap first()/last() only in the arm complementary "
-     "to `range.is_empty()`; results of request-driven table lookups are never unwrapped and no handler panics on the "
+     "to `range.is_empty()`; token byte ranges are taken from the consumed input, so they lie on character boundaries "
+     "(TOKEN-RANGE-SOURCE); results of request-driven table lookups are never unwrapped and no handler panics on the "
      "kind of a looked-up entry (LOOKUP-NOPANIC); locations are produced only for user declarations (ENTRY-GUARD: "
      "predefined entries have the empty range); the process is terminated only at the three sanctioned places.",
      [{"rule": "EMPTY-RANGE-GUARD", "floor": 2}, {"rule": "LOOKUP-NOPANIC", "floor": 14},
-      {"rule": "ENTRY-GUARD", "floor": 6}, {"rule": "WHO-MAY", "filter": tag("exit"), "floor": 5}])
+      {"rule": "ENTRY-GUARD", "floor": 6}, {"rule": "WHO-MAY", "filter": tag("exit"), "floor": 5},
+      {"rule": "TOKEN-RANGE-SOURCE", "floor": 38}])
 
 prop("C03", NEC + "Clauses: each of the 27 build/semantic message kinds has an emitting site under table::* and its own "
      "text (VARIANTS); every error is attached in the reference frame of the node that owns it and is shifted exactly "
@@ -54,8 +56,10 @@ prop("C05", NEC + "Clauses: the five synchronisation sets are nested and all con
      [{"rule": "SYNC-SETS", "floor": 10}, {"rule": "NOCONSUME", "filter": tag("tag", "expect", "kw"), "floor": 40}])
 
 prop("C06", NEC + "Clauses: alt(..) order vs. prefix relation of static lexemes (longest match), every static token "
-     "lexed exactly once through the macro of its class, class order, exactly one Eof.",
-     [{"rule": "TABLES", "filter": tag("T1", "T3"), "floor": 37}, {"rule": "EOF-ONCE", "floor": 3}])
+     "lexed exactly once through the macro of its class, class order, exactly one Eof; token ranges are the ranges of the "
+     "consumed input (TOKEN-RANGE-SOURCE); the keyword boundary test uses the identifier continuation class (KEYWORD-BOUNDARY).",
+     [{"rule": "TABLES", "filter": tag("T1", "T3"), "floor": 37}, {"rule": "EOF-ONCE", "floor": 3},
+      {"rule": "TOKEN-RANGE-SOURCE", "floor": 38}, {"rule": "KEYWORD-BOUNDARY", "floor": 10}])
 
 prop("C07", NEC + "Clauses: a token relocated to a new range relocates its lexical errors too (TOKEN-ERRORS); the "
      "look-ahead table covers every lexeme that a following character can extend (T2); byte, char and UTF-16 lengths "
@@ -64,8 +68,9 @@ prop("C07", NEC + "Clauses: a token relocated to a new range relocates its lexic
       {"rule": "LEN-UNITS", "filter": tag("arith"), "floor": 1}])
 
 prop("C08", NEC + "Clauses: no content change is discarded, batched changes are converted against the advanced "
-     "temporary text and applied to it, LSP columns advance by UTF-16 code units; lengths of different units are not mixed.",
-     [{"rule": "TEXT-SYNC", "floor": 6}, {"rule": "LEN-UNITS", "floor": 2}])
+     "temporary text and applied to it, LSP columns advance by UTF-16 code units; lengths of different units are not mixed; "
+     "client positions are interpreted only by get_insertion_index and positions sent out come only from as_position (POS-CONV).",
+     [{"rule": "TEXT-SYNC", "floor": 6}, {"rule": "LEN-UNITS", "floor": 3}, {"rule": "POS-CONV", "floor": 22}])
 
 prop("C09", NEC + "Clauses: operators are re-printed as the lexeme they were lexed from (T4); every Format impl prints "
      "every child that holds an identifier, literal or operator and every Error variant (TRAVERSE); every token slice "
@@ -76,7 +81,7 @@ prop("C09", NEC + "Clauses: operators are re-printed as the lexeme they were lex
 
 prop("C10", NEC + "Clause: a composite node whose parser skips comments in front of several own tokens must re-attach all "
      "comments of its slice (COMMENT-PAIRING). Six composite Format impls violate it on the pinned tree (known findings).",
-     [{"rule": "COMMENT-PAIRING", "floor": 11}])
+     [{"rule": "COMMENT-PAIRING", "floor": 21}])
 
 prop("C11", NEC + "Clauses: the printer does not read byte positions (output is a function of tree and token kinds), the "
      "indentation unit follows insertSpaces/tabSize, null is returned exactly on equality.",
@@ -107,7 +112,7 @@ prop("C14", NEC + "Clauses: the call statement is located with node, origin and 
 prop("C15", NEC + "Clauses: legend order = enum discriminants (T6); token positions of different units/frames are not "
      "compared and declaration slices are cut in the right frame (FRAME in semantic_tokens.rs); token lengths are UTF-16 "
      "(LEN-UNITS); the delta base advances exactly when a token is emitted (SEMTOK-PAIRING).",
-     [{"rule": "TABLES-SEMTOK", "floor": 11}, {"rule": "FRAME", "filter": files("semantic_tokens.rs"), "floor": 3},
+     [{"rule": "TABLES-SEMTOK", "floor": 11}, {"rule": "FRAME", "filter": files("semantic_tokens.rs"), "floor": 7},
       {"rule": "LEN-UNITS", "filter": tag("lsp"), "floor": 1}, {"rule": "SEMTOK-PAIRING", "floor": 6}])
 
 prop("C16", NEC + "Clauses: every token slice / node pair that drives the position classification is in one frame (FRAME "
@@ -115,19 +120,23 @@ prop("C16", NEC + "Clauses: every token slice / node pair that drives the positi
      [{"rule": "FRAME", "filter": files("completion.rs"), "floor": 18}, {"rule": "SCOPE-ORDER", "floor": 9}])
 
 prop("C17", NEC + "Clause: the procedure's token range is made absolute with the offset of the Reference it was reached "
-     "through before the token vector is sliced (FRAME in fold.rs).",
-     [{"rule": "FRAME", "filter": files("fold.rs"), "floor": 2}])
+     "through before the token vector is sliced (FRAME in fold.rs); the lines reported come from as_pos_range of the "
+     "procedure's byte range (POS-CONV).",
+     [{"rule": "FRAME", "filter": files("fold.rs"), "floor": 2}, {"rule": "POS-CONV", "floor": 22}])
 
 prop("C18", NEC + "Clauses: every path through every Request arm of the three phase loops splits the request, "
      "turns the PreparedResponse into exactly one Response and sends it; phase x situation -> error code table; "
      "exit handling per phase; senders released before the tasks are joined; end of input falls through to Ok(()); "
      "responses can only be built from the request's PreparedResponse; JSON-RPC error code numbers.",
-     [{"rule": "LIFECYCLE", "floor": 57}, {"rule": "WHO-MAY", "floor": 13}, {"rule": "TABLES-ERRCODE", "floor": 3}])
+     [{"rule": "LIFECYCLE", "floor": 57}, {"rule": "WHO-MAY", "floor": 13}, {"rule": "TABLES-ERRCODE", "floor": 3},
+      {"rule": "SEND-AWAIT", "floor": 11}])
 
 prop("C19", NEC + "Clauses: decode consumes nothing before its last `Ok(None)`, slices the body only behind the "
      "length guard and advances by exactly content_end; encode writes String::len() (bytes) of the body it writes.",
      [{"rule": "CODEC", "floor": 7}])
 
 prop("C20", NEC + "Clauses: diagnostics only under `if send_diagnostics`, once per Open/Change; Close removes; "
-     "document map keyed by an injective function of the URI; no task spawned per request.",
-     [{"rule": "BROKER", "floor": 12}, {"rule": "WHO-MAY", "filter": tag("spawn"), "floor": 1}])
+     "document map keyed by an injective function of the URI; no task spawned per request; every channel send is "
+     "`send(..).await` (no lossy try_send).",
+     [{"rule": "BROKER", "floor": 12}, {"rule": "WHO-MAY", "filter": tag("spawn"), "floor": 1},
+      {"rule": "SEND-AWAIT", "floor": 11}])
